@@ -162,6 +162,7 @@ var Alphabet = []*OpDesc{
 	{Name: "H.ZeroPoint", Recv: KPoint, Pseudo: true}, // var p Point
 	{Name: "H.Scribble", Recv: KNone, Pseudo: true},   // mutate a previously returned value
 	{Name: "H.Probe", Recv: KNone, Pseudo: true},      // re-issue a recorded call on copies
+	{Name: "H.Flood", Recv: KNone, Pseudo: true},      // one operation on L distinct inputs, then on the same inputs again
 	{Name: "H.GC", Recv: KNone, Pseudo: true},         // two forced collections: sync.Pool and its victim cache are emptied
 	{Name: "H.CopyOut", Recv: KNone, Pseudo: true},    // copy a returned Element/Point/Scalar into a slot
 }
